@@ -213,6 +213,21 @@ func mutateFields(r *c.Rng, obj map[string]any, timeFields ...string) string {
 	return strings.Join(done, "+")
 }
 
+// weirdToken: a syntactically valid compact JWS whose protected header carries extreme values in
+// the members the CA looks at before any signature check (x5cInsecure, x5c, sshpop, kid, alg, …)
+func weirdToken(r *c.Rng) string {
+	hdrs := []string{
+		`{"alg":"ES256","x5cInsecure":[]}`, `{"alg":"ES256","x5cInsecure":["AAAA"]}`, `{"alg":"ES256","x5cInsecure":"x"}`, `{"alg":"ES256","x5cInsecure":[1,2]}`,
+		`{"alg":"ES256","x5cInsecure":[""]}`, `{"alg":"ES256","x5c":[]}`, `{"alg":"ES256","x5c":[""]}`, `{"alg":"ES256","x5c":["AAAA"]}`, `{"alg":"none"}`,
+		`{"alg":"ES256","sshpop":""}`, `{"alg":"ES256","sshpop":"AAAA"}`, `{"alg":"ES256","kid":""}`, `{"alg":"ES256","jwk":{}}`, `{"alg":"ES256","jwk":{"kty":"EC"}}`,
+		`{"alg":"HS256","kid":"x"}`, `{"alg":"ES256","crit":["x"]}`, `{}`, `{"alg":null}`, `{"alg":"ES256","nebula":""}`, `{"alg":"ES256","nebula":"AAAA"}`,
+	}
+	pls := []string{`{}`, `{"aud":"acme/acme"}`, `{"aud":[],"iss":"","sub":""}`, `{"iss":"jwk","aud":"https://ca.verif.test/1.0/sign","exp":1e30,"nbf":-1e30,"iat":"x"}`,
+		`{"aud":"https://ca.verif.test/1.0/sign#sshpop/sshpop"}`, `{"aud":"x","azp":"jwk","tid":"jwk"}`, `{"iss":"kubernetes/serviceaccount"}`, `null`, `[]`, `""`}
+	b64 := func(s string) string { return base64.RawURLEncoding.EncodeToString([]byte(s)) }
+	return b64(c.Pick(r, hdrs)) + "." + b64(c.Pick(r, pls)) + "." + c.Pick(r, []string{"c2ln", "", "AAAA", b64(strings.Repeat("s", 64))})
+}
+
 type gen func(e *env, r *c.Rng) (*http.Request, string)
 
 func rawBody(r *c.Rng) []byte {
@@ -284,6 +299,10 @@ var gens = map[string]gen{
 			sans = []string{name}
 		}
 		obj := map[string]any{"csr": pemCSR(csr), "ott": must(e.ca.Token(fixture.TokenOpts{Subject: name, SANs: sans})), "notBefore": "", "notAfter": "", "templateData": map[string]any{}}
+		if r.Chance(1, 6) {
+			obj["ott"] = weirdToken(r)
+			return e.post(c.Pick(r, []string{"/1.0/sign", "/1.0/revoke", "/1.0/ssh/sign", "/1.0/ssh/renew", "/1.0/ssh/rekey", "/1.0/ssh/revoke"}), obj), "weird-ott"
+		}
 		return e.post("/1.0/sign", obj), mutateFields(r, obj, "notBefore", "notAfter")
 	},
 	"ssh-sign": func(e *env, r *c.Rng) (*http.Request, string) {
@@ -332,6 +351,11 @@ var gens = map[string]gen{
 			return fixture.WithClientCert(e.post("/1.0/renew", nil), e.ca.MiniCA.Root), "renew-foreign"
 		}
 		req := e.post("/1.0/renew", nil)
+		if r.Chance(1, 2) {
+			tok := weirdToken(r)
+			req.Header.Set("Authorization", "Bearer "+tok)
+			return req, "renew-bearer-jws"
+		}
 		req.Header.Set("Authorization", "Bearer "+pickS(r))
 		return req, "renew-bearer"
 	},
